@@ -151,6 +151,9 @@ package ast
 // varsDone: the include statement's vars were merged into the copy.
 //@ ghost var dupFree bool scratch
 //@ ghost var reMatched bool scratch
+//@ ghost var reTried bool scratch
+//@ ghost var nSub int scratch
+//@ ghost var starCount int scratch
 //@ ghost var excluded bool scratch
 //@ ghost var varsDone bool scratch
 //@ ghost var itvDone bool scratch
@@ -238,6 +241,17 @@ package ast
 //@   site (*Regexp).FindStringSubmatch#1 requires arg1 == name                                                         [C15]
 //@   site (*Regexp).FindStringSubmatch#1 ghost reMatched := len(result) > 0
 //@   ensures result.0 ==> reMatched                                                                                    [C15]
+// ... and there is no other way to a NEGATIVE answer either: every answer is given after the anchored expression
+// was tried on the requested name, and a name it matched (with one substring per '*') is accepted
+//@   init reTried := false
+//@   init nSub := 0
+//@   init starCount := 0
+//@   site (*Regexp).FindStringSubmatch#1 ghost reTried := true
+//@   site (*Regexp).FindStringSubmatch#1 ghost nSub := len(result)
+//@   site strings.Count#1 requires arg0 == t.Task && arg1 == "*"                                                       [C15]
+//@   site strings.Count#1 ghost starCount := result
+//@   ensures reTried                                                                                                   [C15]
+//@   ensures reMatched && nSub - 1 == starCount ==> result.0                                                           [C15]
 
 // ---- C18: the ordered maps of variables, tasks and includes are used under their own mutex ----------------
 // Exceptions (stated, not proved): the iterators All/Keys/Values hand out lock-free iteration by design (their
